@@ -62,7 +62,7 @@ def shard_weights(arg):
     acc = core.Acc(PID)
     for comp in comps:
         for w in itertools.product(wvals, repeat=n):
-            for scale in (0.5, 3.0, 1e-3):
+            for scale in (0.5, 3.0, 1e-3, 2.0 ** -40, 2.0 ** 40):     # incl. totals far below any absolute epsilon
                 acc.states += 1
                 acc.tick({"kind": "weights", "comp": list(comp), "w": list(w), "scale": scale})
                 comparable = [c for c, x in zip(comp, w) if c >= 0 and x > 0]
